@@ -258,6 +258,15 @@ pub fn run(ctx: &Ctx, model: &mut Model, rep: &mut Report) {
     rep.rule = "libraries of heading trees (well-nested and not, duplicate and code-only titles, headings inside lists and quotes) with block references forming DAGs and cycles, dangling targets, sub-directories, >100 headings in the big cases; edit histories; correspondence: model outline paths + search paths (text, rank, key, root, line) vs the real ones after every step, and the order/truncation of global_search for 4 queries with the real fuzzy scores as input; oracle: listed paths = chains found by an independent scan of the formatted notes (sound + complete for notes reachable from an unreferenced note), ≤100 results, documented order, names = heading texts; non-trivial = ≥2 headings; distinct by text".to_string();
     if let Some(path) = &ctx.replay {
         let v: serde_json::Value = serde_json::from_str(&std::fs::read_to_string(path).unwrap()).unwrap();
+        if let Some(r) = crate::cli::replay(&v) {
+            rep.evaluations += 1;
+            if let Some(w) = r {
+                let mut f = v.clone();
+                f["what"] = json!(w);
+                rep.fail(f);
+            }
+            return;
+        }
         let lib: Vec<(String, String)> = v["library"].as_array().unwrap().iter().map(|p| (p[0].as_str().unwrap().to_string(), p[1].as_str().unwrap().to_string())).collect();
         rep.evaluations += 1;
         if let Some(what) = crate::act::with_via(crate::act::via_from(&v["via"]), || check_library(&lib)) {
@@ -326,6 +335,15 @@ pub fn run(ctx: &Ctx, model: &mut Model, rep: &mut Report) {
             }
         }
         // every edit recomputes all outline paths: the big libraries are loaded in one go
+        // the command-line binary on the same library: `iwe paths`, `iwe contents`, `iwe normalize` vs the graph
+        if i % 8 == 2 && lib.len() <= 8 {
+            rep.count("cli_cases");
+            rep.evaluations += 1;
+            let case = crate::cli::CliCase { lib: &lib, ext: if i % 16 == 2 { "" } else { ".md" }, sub: if i % 3 == 0 { "" } else { "notes" }, squash: None, paths_depth: (2 + i % 4) as u8, tag: &format!("c18-{}", i) };
+            if let Some(w) = crate::cli::check(&case) {
+                rep.fail(case.failure(w));
+            }
+        }
         let via = if lib.len() > 8 || lib.iter().map(|(_, t)| t.len()).sum::<usize>() > 4000 { crate::act::Via::Import } else { crate::act::via_for(i as u64) };
         rep.count(&format!("loaded_via_{:?}", via));
         if let Some(what) = crate::act::with_via(via, || check_library(&lib)) {
